@@ -75,6 +75,8 @@ UNKNOWN_IFACES = ['my_unknown_iface', 'zz_custom_v9', 'new', 'x', 'ACME_panel', 
 STRS = ['', 'a', 'wl_seat', 'wl_shm', 'hello world', 'a, b', 'x) y', '(p', '[q]', 'wl_surface@3', 'nil', '12', 'new id wl_a@4', 'ünï', "it's", 'fd 3',
         'array', ' lead', 'trail ', 'org.gnome.gedit', 'foo.bar.Baz', 'title: x', '}', '{', '1.5', '[1.0] a@1.b(',
         '[5.000]  -> wl_surface@9.commit()', '[   7.250]  -> wl_x#3.y(1)', '2 discarded drafts', 'x discarded y']      # a whole sent-looking message with its own time inside a string
+LONG_TITLES = ['Quarterly report (final, really final) - spreadsheet.ods - Some Office Suite 7.4', 'x' * 64, 'https://example.org/a/very/long/path/to/a/page?with=query&and=more#fragment - Browser',
+               'org.example.AnApplicationWithAVeryLongReverseDomainIdentifier.Window']
 FREE_NAMES = ['ping', 'set_thing', 'done', 'new', 'destroyed', 'configure', 'commit', 'Frob', 'setX']
 I32 = [0, 1, -1, 7, 2, 3, 4, 8, 16, 272, 273, 274, -2147483648, 2147483647]
 U32 = [0, 1, 2, 3, 4, 5, 7, 8, 15, 16, 255, 4294967295]
@@ -392,7 +394,7 @@ class ConnGen:
             return self.step_bind(d, iface=d.choice(['xdg_toplevel', 'xdg_toplevel', 'xdg_toplevel', 'zwlr_layer_shell_v1', 'wl_surface']))
         self._title_next = False
         name = d.choice(['set_title', 'set_app_id'])
-        return dict(sent=self.sent(False), iface='xdg_toplevel', id=tl, name=name, args=[['str', '' if d.chance(0.25) else (d.choice(['b', 'B', 'c', 'C', 'a']) if d.chance(0.3) else d.choice(STRS))]])   # app ids that read like connection names
+        return dict(sent=self.sent(False), iface='xdg_toplevel', id=tl, name=name, args=[['str', '' if d.chance(0.25) else (d.choice(['b', 'B', 'c', 'C', 'a']) if d.chance(0.3) else d.choice(STRS + LONG_TITLES))]])   # app ids that read like connection names
 
     def step_retype(self, d):
         """re-create a freed client id with a *different* interface and make the next message target it"""
